@@ -2,12 +2,9 @@
 From Coq Require Import ZArith List String Bool Lia.
 Import ListNotations.
 From TD Require Import Model.Keys Proofs.KeysP Model.C04_Tree Model.C04_Ops Model.C04_Views Model.C04_Step
-     Spec.C04_NestedDict Proofs.C04_AssocP Proofs.C04_CoreP Proofs.C04_RenameP Proofs.C04_UpdateP Proofs.C04_ViewsP Proofs.C04_FlattenP.
+     Spec.C04_NestedDict Proofs.C04_AssocP Proofs.C04_CoreP Proofs.C04_RenameP Proofs.C04_UpdateP Proofs.C04_ViewsP Proofs.C04_FlattenP Proofs.C04_UnflattenP.
 Open Scope string_scope.
 Open Scope list_scope.
-
-(* python's `sep in key` / key.split(sep), handed to the spec *)
-Definition py_split (sep k : string) : option path := if str_contains sep k then Some (split sep k) else None.
 
 (* ---- abstraction of operations: a well-formed spelling denotes its in-order strings ---- *)
 Definition kp (k : pykey) : option path := if wfb k then Some (strings k) else None.
@@ -78,15 +75,23 @@ Qed.
 Definition in_scope (o : op) : Prop :=
   match o with
   | ONop | OClear | OFilterEmpty | ODel _ | ODelItem _ | OPop _ _ | OSet _ _ | OSetItem _ _ | OSetDefault _ _ => True
-  | ORename k1 k2 _ => ~ strict_prefix (strings k1) (strings k2)   (* D42 *)
-  | OUpdate _ => True
-  | OFlatten _ inplace _ => inplace = false                        (* in place: D24 *)
+  | ORename k1 k2 safe =>
+      (* a SAFE rename onto a key under the old one asks `new in keys(True)` first, and that membership test raises
+         ValueError (instead of answering False) when the path runs through a tensor below the old entry *)
+      strict_prefix (strings k1) (strings k2) -> safe = false
+  | OUpdate _ | OFlatten _ _ _ => True
+  | OUnflatten sep _ _ => sep <> ""
   | _ => False
   end.
 
 (* operations that either succeed or leave the subject untouched (update stops at the first failing item and keeps
    what it has written so far: the code documents this, a python loop over d[k] = v does the same) *)
-Definition atomic (o : op) : Prop := match o with OUpdate _ => False | _ => True end.
+Definition atomic (o : op) : Prop :=
+  match o with
+  | OUpdate _ => False
+  | OUnflatten _ inplace _ => inplace = false   (* in place it stops at the first failing rename *)
+  | _ => True
+  end.
 
 Lemma update_paths_eq : forall items sitems es,
   traverse (fun kv : pykey * tree => option_map (fun p => (p, abs (snd kv))) (kp (fst kv))) items = Some sitems ->
@@ -113,13 +118,13 @@ Proof.
   destruct r as [es'|e]; intros ->; cbn; [split; reflexivity|split; [discriminate|reflexivity]].
 Qed.
 
-Lemma refine_step_atomic es o so : abs_op o = Some so -> in_scope o -> atomic o ->
+Lemma refine_step_atomic es o so : wfE es -> abs_op o = Some so -> in_scope o -> atomic o ->
   match nd_step py_split (absE es) so with
   | Some r => sr_err (step es o) = None /\ abs_sres (step es o) = r
   | None => sr_err (step es o) <> None /\ sr_cont (step es o) = es
   end.
 Proof.
-  intros A S AT. destruct o; cbn [in_scope] in S; try contradiction; cbn [abs_op] in A; cbn [atomic] in AT; try contradiction.
+  intros WF A S AT. destruct o; cbn [in_scope] in S; try contradiction; cbn [abs_op] in A; cbn [atomic] in AT; try contradiction.
   - (* nop *) injection A as <-. cbn. split; reflexivity.
   - (* set *)
     destruct (kp k) as [p|] eqn:K; [|discriminate]. injection A as <-. destruct (kp_some _ _ K) as [W [_ [U N]]].
@@ -150,7 +155,7 @@ Proof.
                 = rename_p p q safe es).
     { rewrite (wf_key_keyres k1 W1), (wf_key_keyres k2 W2), S1, S2, rename_r_path by assumption.
       destruct k1; destruct k2; try reflexivity; discriminate. }
-    rewrite R. pose proof (rename_p_refines p q safe es N1 N2 S) as P.
+    rewrite R. pose proof (rename_p_refines p q safe es N1 N2 WF S) as P.
     destruct (rename_p p q safe es) as [es' [e|]].
     + destruct P as [P ->]. rewrite P. cbn. split; [discriminate|reflexivity].
     + rewrite P. cbn. split; reflexivity.
@@ -161,46 +166,59 @@ Proof.
     + rewrite P. cbn. split; reflexivity.
     + contradiction.
     + destruct P as [P ->]. rewrite P. cbn. split; [discriminate|reflexivity].
-  - (* flatten_keys out of place *)
-    injection A as <-. subst inplace. cbn [step nd_step]. pose proof (flatten_out_refines sep es) as P.
-    destruct (flatten_out sep es) as [out|e]; rewrite P; cbn.
-    + split; [reflexivity|]. unfold abs_sres. cbn. destruct cont; reflexivity.
+  - (* flatten_keys, out of place and in place *)
+    injection A as <-. cbn [step nd_step]. pose proof (flatten_out_refines sep es) as P.
+    destruct inplace.
+    + rewrite flatten_in_eq. destruct (flatten_out sep es) as [out|e]; rewrite P; cbn.
+      * split; reflexivity.
+      * split; [discriminate|reflexivity].
+    + destruct (flatten_out sep es) as [out|e]; rewrite P; cbn.
+      * split; [reflexivity|]. unfold abs_sres. cbn. destruct cont; reflexivity.
+      * split; [discriminate|reflexivity].
+  - (* unflatten_keys out of place *)
+    injection A as <-. subst inplace. cbn [step nd_step]. rewrite absE_keys.
+    pose proof (unflatten_loop_refines sep S (map fst es) es WF) as P. unfold unflatten_in.
+    destruct (unflatten_loop sep (map fst es) es) as [out [e|]]; destruct P as [P _]; rewrite P; cbn.
     + split; [discriminate|reflexivity].
+    + split; [reflexivity|]. unfold abs_sres. cbn. destruct cont; reflexivity.
   - (* clear *) injection A as <-. cbn [step nd_step]. rewrite clear_nil. cbn. split; reflexivity.
   - (* filter_empty *) injection A as <-. cbn [step nd_step]. cbn. split; [reflexivity|].
     unfold abs_sres. cbn. now rewrite filter_empty_abs.
 Qed.
 
-Theorem refine_step es o so : abs_op o = Some so -> in_scope o ->
+Theorem refine_step es o so : wfE es -> abs_op o = Some so -> in_scope o ->
   match nd_step py_split (absE es) so with
   | Some r => sr_err (step es o) = None /\ abs_sres (step es o) = r
   | None => sr_err (step es o) <> None /\ (atomic o -> sr_cont (step es o) = es)
   end.
 Proof.
-  intros A S. destruct o;
-    try (pose proof (refine_step_atomic es _ so A S I) as R;
-         destruct (nd_step py_split (absE es) so); [exact R|destruct R as [R1 R2]; split; [exact R1|intros _; exact R2]]).
-  (* update: not atomic *)
-  cbn [abs_op] in A. destruct (traverse _ items) as [sitems|] eqn:T; [|discriminate]. injection A as <-.
-  destruct (update_paths_eq items sitems es T) as [E1 E2].
-  cbn [step nd_step]. rewrite E1, E2.
-  pose proof (update_refines (map (fun kv => (strings (fst kv), snd kv)) items) es) as U.
-  destruct (update_paths _ es) as [es' [e|]]; rewrite U; cbn.
-  - split; [discriminate|intros []].
-  - split; reflexivity.
+  intros WF A S.
+  assert (ATOM : atomic o ->
+                 match nd_step py_split (absE es) so with
+                 | Some r => sr_err (step es o) = None /\ abs_sres (step es o) = r
+                 | None => sr_err (step es o) <> None /\ (atomic o -> sr_cont (step es o) = es)
+                 end).
+  { intros AT. pose proof (refine_step_atomic es o so WF A S AT) as R.
+    destruct (nd_step py_split (absE es) so); [exact R|destruct R as [R1 R2]; split; [exact R1|intros _; exact R2]]. }
+  destruct o; try (apply ATOM; exact I).
+  - (* update: not atomic *)
+    cbn [abs_op] in A. destruct (traverse _ items) as [sitems|] eqn:T; [|discriminate]. injection A as <-.
+    destruct (update_paths_eq items sitems es T) as [E1 E2].
+    cbn [step nd_step]. rewrite E1, E2.
+    pose proof (update_refines (map (fun kv => (strings (fst kv), snd kv)) items) es) as U.
+    destruct (update_paths _ es) as [es' [e|]]; rewrite U; cbn.
+    + split; [discriminate|intros []].
+    + split; reflexivity.
+  - (* unflatten_keys *)
+    destruct inplace; [|apply ATOM; reflexivity].
+    cbn [abs_op] in A. injection A as <-. cbn [in_scope] in S. cbn [step nd_step]. rewrite absE_keys.
+    pose proof (unflatten_loop_refines sep S (map fst es) es WF) as P. unfold unflatten_in.
+    destruct (unflatten_loop sep (map fst es) es) as [es' [e|]]; destruct P as [P _]; rewrite P; cbn.
+    + split; [discriminate|intros AT; discriminate].
+    + split; reflexivity.
 Qed.
 
 (* ---- well-formedness is an invariant ---- *)
-Lemma get_tuple_wf : forall p es d v, wfE es -> get_tuple p es d = GVal v -> wf v.
-Proof.
-  induction p as [|k rest IH]; intros es d v W G; [discriminate|].
-  destruct rest as [|k2 r2].
-  - rewrite get_tuple_1 in G. destruct (aget k es) as [w|] eqn:A; [|destruct d; discriminate].
-    injection G as <-. exact (wf_aget _ _ _ W A).
-  - rewrite get_tuple_2 in G. destruct (aget k es) as [[[|] z|sub]|] eqn:A; try discriminate; [|destruct d; discriminate].
-    exact (IH sub d v (wfE_sub _ _ _ W A) G).
-Qed.
-
 Lemma prune_keys_incl : forall es x,
   In x (map fst ((fix go (es : ents) : ents :=
            match es with
@@ -228,18 +246,6 @@ Lemma filter_empty_wf es : wfE es -> wfE (filter_empty es).
 Proof.
   intros W. unfold filter_empty. pose proof (prune_wf (Node es) W) as P.
   destruct (prune (Node es)) as [k z|es'] eqn:E; [exact W|exact P].
-Qed.
-
-Lemma rename_p_wf p q safe es es' e : wfE es -> rename_p p q safe es = (es', e) -> wfE es'.
-Proof.
-  intros W. unfold rename_p. destruct (list_string_eqb p q).
-  - destruct (view_contains_path true p es) as [[|]|e0]; intros E; injection E as <- _; exact W.
-  - destruct (if safe then view_contains_path true q es else Ok false) as [[|]|e0]; try (intros E; injection E as <- _; exact W).
-    destruct (get_tuple p es false) as [v| |e0] eqn:G; try (intros E; injection E as <- _; exact W).
-    destruct (set_tuple q v es) as [es1|e0] eqn:S; [|intros E; injection E as <- _; exact W].
-    assert (W1 : wfE es1) by exact (set_tuple_wf _ _ _ _ W (get_tuple_wf _ _ _ _ W G) S).
-    destruct (list_string_eqb (firstn (List.length q) p) q); [intros E; injection E as <- _; exact W1|].
-    destruct (del_tuple p es1) as [es2|e0] eqn:D; intros E; injection E as <- _; [exact (del_tuple_wf _ _ _ W1 D)|exact W1].
 Qed.
 
 Definition values_wf (o : op) : Prop :=
@@ -287,8 +293,16 @@ Proof.
     + destruct (get k es) as [w| |e]; exact W.
     + destruct (set_tuple p v es) as [es'|e] eqn:E; [|exact W]. pose proof (set_tuple_wf _ _ _ _ W V E) as W'.
       destruct (get k es') as [w| |e]; exact W'.
-  - subst inplace. cbn [step]. destruct (flatten_out sep es) as [out|e] eqn:E; cbn; [|exact W].
-    destruct cont; [exact (flatten_out_wf _ _ _ W E)|exact W].
+  - cbn [step]. destruct inplace.
+    + rewrite flatten_in_eq. destruct (flatten_out sep es) as [out|e] eqn:E; cbn; [exact (flatten_out_wf _ _ _ W E)|exact W].
+    + destruct (flatten_out sep es) as [out|e] eqn:E; cbn; [|exact W].
+      destruct cont; [exact (flatten_out_wf _ _ _ W E)|exact W].
+  - (* unflatten_keys *)
+    cbn [step]. pose proof (unflatten_loop_refines sep S (map fst es) es W) as P. unfold unflatten_in.
+    destruct inplace.
+    + destruct (unflatten_loop sep (map fst es) es) as [es' [e|]]; destruct P as [_ P]; exact P.
+    + destruct (unflatten_loop sep (map fst es) es) as [out [e|]]; destruct P as [_ P]; cbn; [exact W|].
+      destruct cont; [exact P|exact W].
   - cbn [step]. rewrite clear_nil. exact wfE_nil.
   - cbn [step]. now apply filter_empty_wf.
 Qed.
@@ -319,7 +333,7 @@ Theorem history : forall ops sops es, wfE es ->
 Proof.
   intros ops sops es W F. revert es W. induction F as [|o so ops sops [A [S V]] F IH]; intros es W OK; [now split|].
   cbn [run nd_run]. cbn [nd_ok] in OK.
-  pose proof (refine_step es o so A S) as R. pose proof (step_wf es o so W A S V) as W'.
+  pose proof (refine_step es o so W A S) as R. pose proof (step_wf es o so W A S V) as W'.
   destruct (nd_step py_split (absE es) so) as [res|].
   - destruct R as [_ R]. rewrite <- R in *. cbn [abs_sres s_cont] in *. exact (IH _ W' OK).
   - destruct OK as [AT OK]. destruct R as [_ R]. rewrite (R AT) in *. exact (IH _ W OK).
